@@ -62,6 +62,13 @@ def close(a, b, rtol):
         return bool(np.all((np.abs(a - b) <= rtol * np.maximum(np.abs(a), np.abs(b)) + 1e-300) | (np.isnan(a) & np.isnan(b)) | (a == b)))
 
 
+# interpreter-only errors that are differences of the two run-times, not of the program: math.log(0) raises where
+# compiled code continues with -inf, and NumPy warns about reductions over all-NaN slices
+# ... and a finite result that the output dtype cannot hold (the period mean of a curve overshooting between
+# -32768 and 32767) is outside the domain of both worlds: Python refuses the store, compiled code wraps
+BENIGN_INTERPRETER_ERRORS = ("math domain error", "All-NaN slice", "All-NaN axis", "Mean of empty slice", "out of bounds for int")
+
+
 class LayoutDependence(Exception):
     pass
 
@@ -101,6 +108,12 @@ class Cmp:
         if ref_exc is not None:
             if c_exc is not None and type(c_exc) is type(ref_exc):
                 self.p.count(sub, nontrivial=1)
+            elif c_exc is None and not any(t in str(ref_exc) for t in BENIGN_INTERPRETER_ERRORS):
+                # the source refuses this input under the interpreter (e.g. a scalar store of NaN into an integer
+                # cell) while the compiled kernel carries on: the two worlds disagree
+                self.p.violation(sub, {"program": self.prog, "input": desc, "what": "interpreter raises"}, {"kind": "tv", "program": self.prog, "input": desc},
+                                 f"{self.prog}: the interpreted source raises {type(ref_exc).__name__}: {ref_exc} but the compiled kernel returns "
+                                 f"{[np.asarray(v).tolist() for v in (c if isinstance(c, tuple) else (c,))]!r:.200} for {desc}")
             else:
                 self.p.count(sub, out_of_domain=1)
             return
@@ -182,6 +195,31 @@ def generators(thorough):
                     specs = [((n,), "int16")] + ([((1,), "float64")] if nout == 2 else [])
                     c, i = gu_pair(obj, fi, args, specs)
                     C.run(c, i, f"y={y.tolist()} args={[a.tolist() if hasattr(a, 'tolist') else a for a in args[1:]]}",
+                          lam_tie=(lambda a, b, same_band, y=y: tie_fn(y, a, b, same_band)) if tie_fn else None)
+            # missing cells written as NaN / +inf / -inf (in-domain spellings of "missing" for float input); the integer
+            # stored for such a cell by a pass-through branch is platform-defined, so only cells that are finite in the
+            # input are compared there
+            if name.endswith("ws2doptvplc"):
+                return
+            for y in W5[:: 2]:
+                if not (y == ND).any():
+                    continue
+                for mark in (np.nan, np.inf, -np.inf):
+                    ym = np.where(y == ND, mark, y)
+                    n = len(ym)
+                    args = args_fn(ym)
+                    specs = [((n,), "int16")] + ([((1,), "float64")] if nout == 2 else [])
+                    c, i = gu_pair(obj, fi, args, specs)
+                    fin = np.isfinite(ym)
+
+                    def masked(f, fin=fin):
+                        def g():
+                            r = f()
+                            t = r if isinstance(r, tuple) else (r,)
+                            t = (np.where(fin, np.asarray(t[0]), 0),) + tuple(t[1:])
+                            return t if isinstance(r, tuple) else t[0]
+                        return g
+                    C.run(masked(c), masked(i), f"y={ym.tolist()} args={[a.tolist() if hasattr(a, 'tolist') else a for a in args[1:]]}",
                           lam_tie=(lambda a, b, same_band, y=y: tie_fn(y, a, b, same_band)) if tie_fn else None)
         G[name] = run
 
